@@ -23,11 +23,15 @@ EXPLANATION = (
     'checking, a different family).'
 )
 ASSUMPTIONS = [
+
     "completion handlers are invoked by the runtime for every finished task (not decided)",
     "tracing macro expansions are effect-free",
 ]
 
 PS = "engine::state::PeerState::"
+
+
+EXPLANATION += ' (R6) the document-level operations (NamespaceStates::start_connect / accept_request / finish / abort_connect) evaluated on a nested map model: only the slot of (this document, this peer) changes, an unknown document gets no entry. (R7) the per-peer slot map only grows; whole documents are discarded only by leave.'
 
 
 def variant_names(f, adt):
